@@ -44,7 +44,8 @@ class C06(BaseCheck):
   REQUIRED_ANCHORS = ANCHORS
   REQUIRED_CLASSES = ('phase:in-band', 'phase:pinned-max', 'phase:pinned-min', 'phase:pinned-members',
                       'expansion', 'contraction', 'jitter-round', 'member-down', 'leave-active',
-                      'leave-during-jitter-round', 'close-raises-in-jitter-round')
+                      'leave-during-jitter-round', 'close-raises-in-jitter-round',
+                      'second-balancer-connecting')
   ASSUMPTIONS = ('smoothed load = harness reference EMA with the balancer\'s documented 5 s window and the '
                  'same sampling points (cross-checked against the published load_average gauge); phases whose '
                  'per-member load is within 1e-6 of a band edge for a relevant size are skipped and counted',
@@ -99,6 +100,27 @@ class C06(BaseCheck):
       if open_mode == 'delayed':
         return rng.choice([0.001, 0.05, 0.4, 1.5]), True
       return rng.choice([0.0, 0.02]), rng.random() > 0.2
+    # another service of the same process with an aperture balancer of its own, one of whose members
+    # hangs in connect for the whole case: what one balancer is waiting for is none of the other's business
+    other = None
+    if rng.random() < 0.25:
+      classes.add('second-balancer-connecting')
+      seen_other = []
+
+      def other_delay(ch):
+        seen_other.append(ch)
+        return (0.0, True) if len(seen_other) == 1 else (1e7, True)
+      other = make_world(env, rng, 'aperture', {'min_size': 1, 'max_size': 2 ** 31, 'min_load': 0.5, 'max_load': 2.0,
+                                                 'smoothing_window': 5, 'jitter_min_sec': 0, 'jitter_max_sec': 0}, other_delay)
+      oeps = [Endpoint('o%02d' % i, 7900 + i) for i in range(2)]
+      for ep_ in oeps:
+        other.ss.truth[ep_] = Member(ep_)
+      other.top.Open()
+      env.advance(0.3)
+      act_ = [n_.endpoint for n_ in other.lb._heap[1:]]
+      if act_:
+        other.ss.leave(act_[0])        # its replacement starts connecting and never finishes
+        env.advance(0.3)
     w = make_world(env, rng, 'aperture', params, open_delay)
     lb, ss = w.lb, w.ss
     # invariant at a hook: a request event at which the smoothed load per active member (the
@@ -498,6 +520,8 @@ class C06(BaseCheck):
     chan_cls.AsyncProcessRequest = orig_apr
     lb._ContractAperture = orig_contract     # no injected errors once the case is being torn down
     w.top.Close()
+    if other is not None:
+      other.top.Close()
     # a round that is still waiting for its newcomer would schedule the next one when it ends:
     # the balancer of a finished case must not keep jittering into the following cases
     lb._ScheduleNextJitter = lambda: None
